@@ -89,6 +89,13 @@ func (c *hbConn) recvLoop() {
 		}
 
 		if err != nil {
+			if n > 0 {
+				// Hand over the data that was returned together with the error.
+				select {
+				case c.recvCh <- errBytes{buffer[:n], nil}:
+				case <-c.closed:
+				}
+			}
 			c.Close()
 			return
 		}
